@@ -244,7 +244,10 @@ class Report:
 
     def finish(self):
         wall = time.time() - self.t0
-        os.makedirs(os.path.join(VERIF, "evidence"), exist_ok=True)
+        evdir = os.path.join(VERIF, "evidence")
+        if os.environ.get("VERIF_NOEVIDENCE"):          # self-tests against scratch copies must not
+            evdir = os.path.join(VERIF, "out", "evidence-scratch")   # overwrite the committed evidence
+        os.makedirs(evdir, exist_ok=True)
         os.makedirs(os.path.join(VERIF, "out", "replays"), exist_ok=True)
         lines = []
         for k in self.known_hits:
@@ -270,7 +273,7 @@ class Report:
         }
         if self.cov["states"] == 0:
             self.cov["states"] = 0
-        with open(os.path.join(VERIF, "evidence", "%s.json" % self.pid), "w") as f:
+        with open(os.path.join(evdir, "%s.json" % self.pid), "w") as f:
             json.dump(ev, f, indent=1)
         for l in lines:
             print(l, flush=True)
